@@ -65,8 +65,18 @@ def observe(c, dynamic):
     w, h, d = c["w"], c["h"], c["d"]
     per = c["per"]
     n = w * h * d
-    g = strengths.RDGridSpace(w=w, h=h, d=d, cell_env=list(c["env"]), cell_vol=c["h3"],
-                              boundary_conditions={"x": BC[per[0]], "y": BC[per[1]], "z": BC[per[2]]})
+    target = {"x": BC[per[0]], "y": BC[per[1]], "z": BC[per[2]]}
+    if c.get("history"):
+        # the grid object has a past: built with the opposite setting of every axis, fully queried, then given the setting under test
+        g = strengths.RDGridSpace(w=w, h=h, d=d, cell_env=list(c["env"]), cell_vol=c["h3"],
+                                  boundary_conditions={"x": BC[not per[0]], "y": BC[not per[1]], "z": BC[not per[2]]})
+        for i in range(n):
+            g.get_neighbors(i)
+            for j in range(n):
+                g.are_neighbors(i, j)
+        g.set_boundary_conditions(target)
+    else:
+        g = strengths.RDGridSpace(w=w, h=h, d=d, cell_env=list(c["env"]), cell_vol=c["h3"], boundary_conditions=target)
     o = {}
     probe = range(-2 * n, 3 * n)
     o["coords"] = [_res(lambda i=i: list(g.get_cell_coordinates(i))) for i in probe]
@@ -230,7 +240,7 @@ def gen_cases(rng, tier):
         for per in itertools.product([False, True], repeat=3):
             n = w * h * d
             cases.append({"w": w, "h": h, "d": d, "per": list(per), "env": [rng.randrange(2) for _ in range(n)],
-                          "edge": 2.0, "h3": 8.0, "dynamic": n <= max_dyn})
+                          "edge": 2.0, "h3": 8.0, "dynamic": n <= max_dyn, "history": len(cases) % 3 == 1})
     return cases
 
 
@@ -270,7 +280,8 @@ def check(run):
                 "every integer in [-2*size, 3*size), get_cell_index on every triple and x/y/z object in [-1,w]x[-1,h]x[-1,d], "
                 "get_neighbors of every cell, are_neighbors of every pair, grid_to_graph nodes and edges; for w*h*d <= %d also the "
                 "neighbour relation of kinetics.compute_dstatedt and of one step of the freshly compiled Euler engine, on the grid and "
-                "on grid_to_graph(grid), revealed by a pure-diffusion probe state x_c = 8^c. One case = one grid; non-trivial = more than one cell"
+                "on grid_to_graph(grid), revealed by a pure-diffusion probe state x_c = 8^c; every third grid object is first built with the opposite "
+                "boundary setting, fully queried, and then switched with set_boundary_conditions. One case = one grid; non-trivial = more than one cell"
                 % (bound, dyn))
     run.exhaustive = True
     run.extra["exhaustive_scope"] = "all grids with w*h*d <= %d (static relations) / <= %d (kinetics and engine)" % (bound, dyn)
